@@ -19,7 +19,7 @@ BuildForNeither       == ph = "idle" /\ BuildFor(FALSE, FALSE)
 BuildForRedeemersOnly == ph = "idle" /\ BuildFor(TRUE, FALSE)
 BuildForDatumsOnly    == ph = "idle" /\ BuildFor(FALSE, TRUE)
 BuildForBoth          == ph = "idle" /\ BuildFor(TRUE, TRUE)
-Hash == ph = "built" /\ pre' = Pre(r, d, L) /\ ph' = "hashed" /\ UNCHANGED <<r, d, L>>
+Hash == ph = "built" /\ pre' = Pre(r, d, EffViews(r, L)) /\ ph' = "hashed" /\ UNCHANGED <<r, d, L>>
 Drop == ph \in {"nothing", "hashed"} /\ ph' = "idle" /\ r' = None /\ d' = None /\ L' = NoViews /\ pre' = <<>>
 
 Next == BuildForNeither \/ BuildForRedeemersOnly \/ BuildForDatumsOnly \/ BuildForBoth \/ Hash \/ Drop
@@ -35,8 +35,8 @@ OtherShapes == \A l \in DOMAIN L \ {0} : ViewEntry(l, L[l])[2].t = "arr"
 PreImageParts == ph = "hashed" =>
                     /\ pre \in Acceptable(r, d, L)
                     /\ WF(Tokens(LangViews(L))) /\ ItemOK(LangViews(L))
-                    /\ (IsNone(r) => pre[1] = 160)
+                    /\ (IsNone(r) => pre[1] = 160 /\ pre[Len(pre)] = 160)          \* A0 | datums | A0
                     /\ (~IsNone(d) => ItemOK(d) /\ WF(Tokens(d)))
-                    /\ Len(pre) = (IF IsNone(r) THEN 1 ELSE Len(Ser(r))) + (IF IsNone(d) THEN 0 ELSE Len(Ser(d))) + Len(Ser(LangViews(L)))
+                    /\ Len(pre) = (IF IsNone(r) THEN 1 ELSE Len(Ser(r))) + (IF IsNone(d) THEN 0 ELSE Len(Ser(d))) + Len(Ser(LangViews(EffViews(r, L))))
 WitnessSetOK == ph \in {"built", "hashed"} => ItemOK(WitnessSet(r, d)) /\ WF(Tokens(WitnessSet(r, d)))
 =============================================================================
